@@ -41,13 +41,77 @@ EMPTY = ['', '# just a comment\n', '---\n...\n', 'null', '~', '---\n', '\n\n',
 @st.composite
 def cases(draw):
     spec = draw(gen.models(FEATS))
-    c = draw(st.sampled_from(range(12)))
+    c = draw(st.sampled_from(list(range(12)) + [10] * 5))
     if c == 0:
         return {'model': spec, 'text': draw(st.sampled_from(EMPTY)), 'src': 'empty'}
     t, origin = draw(gen.doc_for(spec, tags=c >= 8, hard=c % 2 == 0))
     if c == 11:
-        t = gen_alias(draw, t)
+        t, _ = draw(gen.share(t))
+        origin = origin.split(':')[0] + '+alias'
+    elif c == 10:
+        t2 = merge_optional(draw, spec)
+        if t2 is not None:
+            t, origin = t2, 'value+merge_optional'
+        else:
+            t, ops = draw(gen.mutate(spec, t, n=1, kinds=['merge_split']))
+            origin = origin.split(':')[0] + '+merge'
     return {'model': spec, 'text': T.render_flow(t), 'src': origin.split(':')[0]}
+
+
+def obj_sites(v, spec, path=()):
+    """(tree path, class name) of every class instance in a value spec; the
+    projection keeps the structure, so kw index i is pair i of the mapping."""
+    k = v[0]
+    if k == 'obj':
+        if not gen.classes_by_name(spec)[v[1]].get('index'):
+            yield path, v
+            for i, (n, x) in enumerate(v[2]):
+                yield from obj_sites(x, spec, path + (1, i, 1))
+    elif k == 'list':
+        for i, x in enumerate(v[1]):
+            yield from obj_sites(x, spec, path + (1, i))
+    elif k in ('dict', 'odict'):
+        for i, (a, b) in enumerate(v[1]):
+            yield from obj_sites(b, spec, path + (1, i, 1))
+
+
+def boolify(draw, t):
+    """Replace int-looking scalar leaves by booleans (isinstance(True, int))."""
+    import copy
+    t = copy.deepcopy(t)
+    for p, s in list(T.subtrees(t)):
+        if s[0] == 's' and not s[2] and s[1].lstrip('-').isdigit() and (not p or p[-1] != 0) \
+                and draw(st.integers(0, 2)) > 0:
+            t = T.set_at(t, p, T.S(draw(st.sampled_from(['true', 'false']))))
+    return t
+
+
+def merge_optional(draw, spec):
+    """A valid document in which the optional attributes of one class mapping
+    arrive through a YAML merge key ('<<'), with near-miss values."""
+    v = draw(gen.vspec_for(spec, spec['doc_type'], hard=False, omit_defaults=False))
+    if v is None:
+        return None
+    sites = list(obj_sites(v, spec))
+    by = gen.classes_by_name(spec)
+    sites = [(p, o) for p, o in sites
+             if any('default' in q for q in by[o[1]].get('params', []))]
+    if not sites:
+        return None
+    path, o = draw(st.sampled_from(sites))
+    t = gen.project(v, spec)
+    mp = T.get_at(t, path)
+    opt = {q['name'] for q in by[o[1]]['params'] if 'default' in q}
+    idx = [i for i, (n, _) in enumerate(o[2]) if n in opt]
+    if not idx:
+        return None
+    chosen = draw(st.lists(st.sampled_from(idx), min_size=1, unique=True))
+    moved = T.M([])
+    moved[1] = [mp[1][i] for i in sorted(chosen)]
+    moved = boolify(draw, moved)
+    rest = [pr for i, pr in enumerate(mp[1]) if i not in chosen]
+    new = ['m', [[T.S('<<'), moved]] + rest, mp[2]]
+    return T.set_at(t, path, new)
 
 
 def gen_alias(draw, t):
@@ -104,5 +168,5 @@ def check(case, ctx):
 
 
 def phases(tier):
-    n = 250 if tier != 'thorough' else 4000
+    n = 320 if tier != 'thorough' else 4000
     return [HypPhase('models_x_documents', cases(), n)]
